@@ -485,6 +485,51 @@ def fdiff(f, p, h=1e-6):
     return np.stack(out)
 
 
+def run_detector_alignment(ctx):
+    """Documented: the detector is aligned with `axes` -- at parameter 0 the surface tangents point along +axes."""
+    rng = ctx.rng('alignment')
+    cases = [('axis-aligned', [(1, 0, 0), (0, 0, 1)]), ('axis-aligned', [(0, 1, 0), (0, 0, 1)]), ('axis-aligned', [(0, -1, 0), (0, 0, -1)]),
+             ('axis-aligned', [(0, -1, 0), (0, 0, 1)]), ('axis-aligned', [(0, 0, 1), (1, 0, 0)]), ('axis-aligned', [(-1, 0, 0), (0, 1, 0)])]
+    for _ in range(ctx.reps(6, 30)):
+        a = rvec(rng, 3, True)
+        b = np.cross(a, rvec(rng, 3, True))
+        b /= np.linalg.norm(b)
+        cases.append(('generic', [a, b]))
+    part2 = odl.uniform_partition([-1, -1], [1, 1], (4, 5))
+    for i, (kind, axes) in enumerate(cases):
+        if not ctx.mine(i):
+            continue
+        for nm, mk in (('Flat2dDetector', lambda: D.Flat2dDetector(part2, axes)),
+                       ('CylindricalDetector', lambda: D.CylindricalDetector(part2, axes, 3.0)),
+                       ('SphericalDetector', lambda: D.SphericalDetector(part2, axes, 3.0))):
+            ctx.ev('detectors')
+            ctx.case('detector-alignment;' + nm, i)
+            try:
+                det = mk()
+                dv = np.asarray(det.surface_deriv((0.0, 0.0)))
+                for k in (0, 1):
+                    t = dv[k] / np.linalg.norm(dv[k])
+                    if not np.allclose(t, np.asarray(axes[k], float) / np.linalg.norm(axes[k]), atol=1e-9):
+                        ctx.violation(nm, 'alignment;' + kind, 'tangent-at-0-not-along-axis', axis=k, axes=axes, tangent=t)
+                        break
+                if not np.allclose(det.surface((0.0, 0.0)), 0, atol=1e-12):
+                    ctx.violation(nm, 'alignment;' + kind, 'surface(0)!=origin')
+            except Exception as e:
+                ctx.violation(nm, 'alignment;' + kind, 'raises:' + type(e).__name__, message=str(e)[:200])
+    part1 = odl.uniform_partition(-1, 1, 5)
+    for i, ax in enumerate([(1, 0), (0, 1), (-1, 0), (0, -1), tuple(rvec(rng, 2, True))]):
+        for nm, mk in (('Flat1dDetector', lambda: D.Flat1dDetector(part1, ax)), ('CircularDetector', lambda: D.CircularDetector(part1, ax, 3.0))):
+            ctx.ev('detectors')
+            try:
+                det = mk()
+                t = np.asarray(det.surface_deriv(0.0))
+                t = t / np.linalg.norm(t)
+                if not np.allclose(t, np.asarray(ax, float), atol=1e-9) or not np.allclose(det.surface(0.0), 0, atol=1e-12):
+                    ctx.violation(nm, 'alignment', 'tangent-at-0-not-along-axis', axis=ax, tangent=t)
+            except Exception as e:
+                ctx.violation(nm, 'alignment', 'raises:' + type(e).__name__, message=str(e)[:200])
+
+
 def run_detectors(ctx):
     rng = ctx.rng('detectors')
     for it in range(ctx.reps(10, 60)):
@@ -746,6 +791,7 @@ def run(ctx):
     run_relational(ctx)
     run_frommatrix(ctx)
     run_detectors(ctx)
+    run_detector_alignment(ctx)
     run_factories(ctx)
     run_utilities(ctx)
     cov.disarm()
